@@ -534,7 +534,8 @@ VOP(mz_msg)
 	} else if (method == "event::UpdateExecutions") {
 		addCk(); p->Set("executions", new Dictionary({ { String("u" + std::to_string(n)), new Dictionary({ { "pending", true }, { "deadline", now + 60 } }) } }));
 	} else if (method == "event::SetRemovalInfo") {
-		if (downtime) { p->Set("object_type", "Downtime"); p->Set("object_name", downtime->GetName()); }
+		if (ro == "x") { p->Set("object_type", "Host"); p->Set("object_name", host->GetName()); }   // a type the handler does not know
+		else if (downtime) { p->Set("object_type", "Downtime"); p->Set("object_name", downtime->GetName()); }
 		else { p->Set("object_type", "Comment"); p->Set("object_name", comment->GetName()); }
 		p->Set("removed_by", String("mz" + std::to_string(n)));
 		p->Set("remove_time", now + n);
@@ -694,6 +695,28 @@ VOP(mz_msg)
 	if (xmode) {
 		auto lst = [](const std::set<long>& zs) { std::string r; for (long z : zs) { if (!r.empty()) r += ","; r += std::to_string(z); } return r.empty() ? std::string("-") : r; };
 		o << " xc=" << lst(xc) << " xd=" << lst(xd);
+	}
+	if (a.num("chz", 0) != 0) {
+		// WHICH objects changed: zone attributes of the checkables / notifications / comments / downtimes of this forest whose
+		// serialised state differs (n = no zone attribute, . = none changed)
+		std::set<std::string> zs;
+		for (auto& kv : after.objs) {
+			auto it = before.objs.find(kv.first);
+			if (it == before.objs.end() || it->second == kv.second) continue;
+			size_t bang = kv.first.find('!');
+			std::string ty = kv.first.substr(0, bang), nm = kv.first.substr(bang + 1);
+			if (ty != "Host" && ty != "Service" && ty != "Notification" && ty != "Comment" && ty != "Downtime") continue;
+			if (nm.compare(0, t.pfx.size(), t.pfx) != 0) continue;
+			ConfigObject::Ptr co = ConfigObject::GetObject(ty, nm);
+			if (!co) continue;
+			std::string zn = co->GetZoneName().GetData();
+			if (zn.empty()) zs.insert("n");
+			else if (zn.compare(0, t.pfx.size() + 1, t.pfx + "z") == 0) zs.insert(zn.substr(t.pfx.size() + 1));
+			else zs.insert("?");
+		}
+		std::string r;
+		for (auto& z : zs) { if (!r.empty()) r += ","; r += z; }
+		o << " chz=" << (r.empty() ? "." : r);
 	}
 	if (qmode) {
 		// which kinds of command ran, and what was queued for the SENDING endpoint (its persistent connection):
